@@ -3,6 +3,7 @@ package gmtls
 import (
 	"bytes"
 	"crypto/cipher"
+	"hash"
 )
 
 // recording cipher suite: remembers the key material each direction is set up with
@@ -109,3 +110,65 @@ func zzH_c06_keys_agree() {
 	}
 	vReach("end")
 }
+
+// H06-master: the master secret is PRF(pre-master secret, "master secret", client_random ||
+// server_random), 48 bytes (RFC 5246 8.1 / GM/T 0024 6.5), and the PRF's own structure
+// (P_hash: A(0) = label || seed, A(i) = HMAC(secret, A(i-1)), output = HMAC(secret, A(i) ||
+// label || seed) blocks, cut to the requested length) for the TLS 1.2 / GMSSL PRF.
+//
+//verif:property C06
+//verif:expect-reach end
+//verif:bound pre-master secret 4, randoms 2x32 symbolic bytes with the PRF an arbitrary function; P_hash with a recording HMAC whose output is an arbitrary function of (key, message): secret 3, label 2, seed 3 symbolic bytes, output lengths 1, 32, 33 and 70
+//verif:outside HMAC and the hash themselves (standard library / C04); the TLS 1.0 split PRF
+//verif:stub-symbolic github.com/tjfoc/gmsm/gmtls.prfForVersion zzStubPrfForVersion
+//verif:stub-symbolic crypto/hmac.New zzStubHmacNew06
+//verif:native-smoke
+func zzH_c06_master_secret() {
+	if vChoice("part", 2) == 0 {
+		pms := vBytes("pms", 4, 4)
+		cr, sr := vBytes("clientRandom", 32, 32), vBytes("serverRandom", 32, 32)
+		got := masterFromPreMasterSecret(VersionGMSSL, &cipherSuite{}, pms, cr, sr)
+		want := make([]byte, 48)
+		prfForVersion(VersionGMSSL, &cipherSuite{})(want, pms, []byte("master secret"), append(append([]byte{}, cr...), sr...))
+		vAssert("master-secret-is-prf-of-pms-label-randoms", bytes.Equal(got, want))
+		vReach("end")
+		return
+	}
+	if vNative() {
+		// P_hash against the standard library's HMAC is exercised by the KAT-validated references; here only the symbolic side
+		vReach("end")
+		return
+	}
+	secret, label, seed := vBytes("secret", 3, 3), vBytes("label", 2, 2), vBytes("seed", 3, 3)
+	n := []int{1, 32, 33, 70}[vChoice("outLen", 4)]
+	out := make([]byte, n)
+	pHash(out, secret, append(append([]byte{}, label...), seed...), zzDummyHashNew)
+	ls := append(append([]byte{}, label...), seed...)
+	mac := func(msg []byte) []byte { return vUFBytes("hmac", 32, secret, zzPadTo(msg, 40)) }
+	a := mac(ls)
+	var want []byte
+	for len(want) < n {
+		want = append(want, mac(append(append([]byte{}, a...), ls...))...)
+		a = mac(a)
+	}
+	vAssert("p-hash-structure", bytes.Equal(out, want[:n]))
+	vReach("end")
+}
+
+// recording HMAC: Sum is an arbitrary function of (key, everything written since Reset)
+type zzHmac struct {
+	key []byte
+	buf []byte
+}
+
+func (h *zzHmac) Write(p []byte) (int, error) { h.buf = append(h.buf, p...); return len(p), nil }
+func (h *zzHmac) Reset()                      { h.buf = nil }
+func (h *zzHmac) Size() int                   { return 32 }
+func (h *zzHmac) BlockSize() int              { return 64 }
+func (h *zzHmac) Sum(b []byte) []byte {
+	return append(b, vUFBytes("hmac", 32, h.key, zzPadTo(h.buf, 40))...)
+}
+func zzStubHmacNew06(hf func() hash.Hash, key []byte) hash.Hash {
+	return &zzHmac{key: append([]byte{}, key...)}
+}
+func zzDummyHashNew() hash.Hash { return &zzHmac{} }
